@@ -294,3 +294,75 @@ theorem sizeOf_cls_lt_union {m : Nat} {cs : List Nat} (h : m ∈ cs) (hn : Bool)
   simp at this ⊢; omega
 
 end CattrsModel
+
+namespace CattrsModel
+variable (w : World) (cfg : Cfg)
+
+/-! ### NamedTuples: a heterogeneous tuple of the field types, then `cl(*res)` -/
+
+theorem stF_nt_none {c o} (h : iterItems o = Option.none) : stF w cfg (.nt c) o = Option.none := by
+  rw [stF]; split
+  · rfl
+  · rename_i xs h'; rw [h] at h'; cases h'
+
+theorem stF_nt_some {c o xs} (h : iterItems o = some xs) :
+    stF w cfg (.nt c) o = if w.isNT c then (stFT w cfg (w.ntTys c) xs).map (ntMk w c) else Option.none := by
+  rw [stF]; split
+  · rename_i h'; rw [h] at h'; cases h'
+  · rename_i xs' h'; rw [h] at h'; cases h'; rfl
+
+theorem stD_nt_none {c o} (h : iterItems o = Option.none) : stD w cfg (.nt c) o = .error .leaf := by
+  rw [stD]; split
+  · rfl
+  · rename_i xs h'; rw [h] at h'; cases h'
+
+theorem stD_nt_some {c o xs} (h : iterItems o = some xs) :
+    stD w cfg (.nt c) o =
+      if w.isNT c then
+        (let errs := if xs.length != (w.ntTys c).length then (stDT w cfg 0 (w.ntTys c) xs).2 ++ [(Option.none, Err.leaf)]
+                     else (stDT w cfg 0 (w.ntTys c) xs).2
+         if !errs.isEmpty then .error (.ive errs) else .ok (ntMk w c (stDT w cfg 0 (w.ntTys c) xs).1))
+      else .error .leaf := by
+  rw [stD]; split
+  · rename_i h'; rw [h] at h'; cases h'
+  · rename_i xs' h'; rw [h] at h'; cases h'; rfl
+
+/-- the structuring templates on a `.nt` position are those of the heterogeneous tuple of the field types -/
+theorem stF_nt_eq_tup {c o} (hnt : w.isNT c = true) :
+    stF w cfg (.nt c) o = (stF w cfg (.tupleHet (w.ntTys c)) o).bind (fun r =>
+      match r with | .coll .tuple ys => some (ntMk w c ys) | _ => Option.none) := by
+  cases hit : iterItems o with
+  | none => rw [stF_nt_none w cfg hit, stF_tup_none w cfg hit]; rfl
+  | some xs =>
+    rw [stF_nt_some w cfg hit, stF_tup_some w cfg hit, if_pos hnt]
+    cases stFT w cfg (w.ntTys c) xs <;> rfl
+
+theorem vals_zip {names : List String} {ys : List Obj} (h : names.length = ys.length) : vals (names.zip ys) = ys := by
+  induction names generalizing ys with
+  | nil => cases ys <;> simp_all [vals]
+  | cons n ns ih =>
+    cases ys with
+    | nil => simp at h
+    | cons y ys => simp only [List.zip_cons_cons, vals, List.map_cons, List.cons.injEq, true_and]
+                   exact ih (by simpa using h)
+
+theorem names_zip {names : List String} {ys : List Obj} (h : names.length = ys.length) :
+    (names.zip ys).map (·.1) = names := by
+  induction names generalizing ys with
+  | nil => simp
+  | cons n ns ih =>
+    cases ys with
+    | nil => simp at h
+    | cons y ys => simp only [List.zip_cons_cons, List.map_cons, List.cons.injEq, true_and]
+                   exact ih (by simpa using h)
+
+theorem zip_names_vals {fs : List (String × Obj)} : (fs.map (·.1)).zip (vals fs) = fs := by
+  induction fs with
+  | nil => rfl
+  | cons p rest ih => obtain ⟨n, v⟩ := p; simp only [List.map_cons, vals, List.zip_cons_cons, List.cons.injEq, true_and]
+                      exact ih
+
+theorem ntTys_length (c : Nat) : (w.ntTys c).length = (w.ntNames c).length := by
+  simp [World.ntTys, World.ntNames]
+
+end CattrsModel
